@@ -249,6 +249,9 @@ def errclass(err):
     return "-".join(s.replace("'", "").replace('"', "").split()[:4])[:40]
 
 
+OWNER = {"read": "C01", "write": "C02", "readback": "C02"}   # an exception instead of Tags also breaks the read / write property
+
+
 def call(run, fn, what):
     """call a public driver method; only library exceptions may escape"""
     from pycomm3.exceptions import PycommError
@@ -259,11 +262,15 @@ def call(run, fn, what):
             run.add(prop, f"{what}.nonterminating", f"{what} kept sending requests (step budget exceeded)")
     except PycommError as e:
         run.add("C03", f"{what}.raises.{type(e).__name__}", f"{e!r} <- {e.__cause__!r}"[:500])
+        if what in OWNER:
+            run.add(OWNER[what], f"{what}.raises.{type(e).__name__}", f"{e!r} <- {e.__cause__!r}"[:500])
     except Exception as e:
         if where(e) == "harness":
             raise
         run.add("C03", f"{what}.foreign.{type(e).__name__}.{where(e)}", repr(e)[:400])
         run.add("C13", f"{what}.foreign.{type(e).__name__}.{where(e)}", repr(e)[:400])
+        if what in OWNER:
+            run.add(OWNER[what], f"{what}.foreign.{type(e).__name__}.{where(e)}", repr(e)[:400])
     return False, None
 
 
